@@ -20,6 +20,7 @@ class Emitter:
         self.vacuity = []     # vacuity twins (must fail)
         self.twins = []
         self.assumed_contracts = []
+        self.imported_lemmas = []
 
     @property
     def lineno(self):
@@ -360,6 +361,33 @@ def splice_after_let(body, fspec, fname):
     return out
 
 
+def rewrite_clone_from(body, rw):
+    """R5d: `RECV.clone_from(&SRC);` -> `RECV = SRC.clone();` (clone_from is an allocation-reusing clone)"""
+    out = list(body)
+    k = 0
+    while k < len(out):
+        if is_id(out[k], 'clone_from') and prv_sig(out, k) >= 0 and is_p(out[prv_sig(out, k)], '.'):
+            dot = prv_sig(out, k)
+            op = nxt_sig(out, k)
+            if op < len(out) and is_p(out[op], '('):
+                cl = match_close(out, op)
+                # statement start
+                j = dot - 1
+                while j >= 0 and not (out[j].kind == 'punct' and out[j].text in (';', '{', '}')):
+                    j -= 1
+                recv = text_of(out[j + 1:dot]).strip()
+                arg = text_of(out[op + 1:cl]).strip()
+                if arg.startswith('&'):
+                    arg = arg[1:].strip()
+                new = '\n        %s = %s.clone()' % (recv, arg)
+                rw.rec('R5d', '%s.clone_from(&%s)' % (recv, arg), '%s = %s.clone()' % (recv, arg))
+                out[j + 1:cl + 1] = [T('raw', new, out[dot].start)]
+                k = j + 2
+                continue
+        k += 1
+    return out
+
+
 def anf_split_try_map_filter(body, rw):
     """R5c: `let X[: T] = RECV.iter_try_map(A)?.into_iter_filter(B);`
          -> `let X__mapped = RECV.iter_try_map(A)?; let X[: T] = X__mapped.into_iter_filter(B);`
@@ -515,6 +543,14 @@ def build_unit(unit, outdir):
         meta['items'].append({'kind': kind, 'name': label, 'src': it['src'], 'line': src_line, 'sha256_16': sha,
                               'tokens': orig_ntok, 'rules': log})
     em.emit('} // verus!')
+    for sp in unit.get('lemma_imports', []):
+        # lemmas proved in another unit: imported as assumptions (bodies not re-verified, no obligations registered)
+        p = os.path.join(VERIF, 'lemmas', sp)
+        em.emit('// ---------------- lemmas (imported, proved in their own unit): %s' % sp)
+        src = open(p).read()
+        src = re.sub(r'(?m)^(\s*)((pub(\([a-z]+\))?\s+)?(broadcast\s+)?proof fn\s)', r'\1#[verifier::external_body]\n\1\2', src)
+        em.emit(src)
+        em.imported_lemmas.append(sp)
     for sp in unit.get('lemma_files', []):
         p = os.path.join(VERIF, 'lemmas', sp)
         em.emit('// ---------------- lemmas: %s' % sp)
@@ -545,6 +581,7 @@ def build_unit(unit, outdir):
     meta['fn_ranges'] = em.fn_ranges
     meta['vacuity'] = em.vacuity
     meta['assumed_contracts'] = em.assumed_contracts
+    meta['imported_lemmas'] = em.imported_lemmas
     meta['linemap'] = {str(k): v for k, v in em.linemap.items()}
     json.dump(meta, open(os.path.join(outdir, unit['name'] + '.map.json'), 'w'), indent=1)
     return out_rs, meta
@@ -628,6 +665,8 @@ def emit_fn(em, unit, it, toks, fspec, path, src_text, rw):
         head_txt = 'pub ' + head_txt
     if it.get('external_body'):
         em.emit('#[verifier::external_body]')
+    if fspec and fspec.opts.get('rlimit'):
+        em.emit('#[verifier::rlimit(%s)]' % fspec.opts['rlimit'])
     em.emit_tokens([T('raw', head_txt, toks[0].start)], path, src_text)
     if rt.startswith('->'):
         em.lines[-1] += ' -> (%s: %s)' % (retname, rt[2:].strip())
@@ -652,6 +691,7 @@ def emit_fn(em, unit, it, toks, fspec, path, src_text, rw):
         for ln in fspec.body_start:
             em.emit(ln)
     body = anf_split_try_map_filter(body, rw)
+    body = rewrite_clone_from(body, rw)
     if fspec and fspec.after_let:
         body = splice_after_let(body, fspec, lname)
     body = desugar_incl_ranges(body, fspec, rw)
